@@ -5,7 +5,8 @@ PROPERTY = "C02"
 STATEFUL = True
 READY = True
 THEOREMS = ["C02.sets_closed", "C02.sets_exact", "C02.fuel_enough", "C02.det_complete", "C02.fact_lang_eq", "C02.exact", "C02.reject_raises", "C02.exact_templates", "C02.smart_indep",
-            "C02.conflict_report_exact", "C02.ll1_as_written_unambiguous"]
+            "C02.conflict_report_exact", "C02.ll1_as_written_unambiguous", "C02.ll1_as_written_nonvacuous",
+            "C02.table_deterministic", "C02.unique_derivation", "C02.parse_unique"]
 RULE = ("one case = one generated grammar (generators and dimensions as C01 - templates, argument kinds, several parser objects, "
         "str / list-of-lines input - with more LL(1)-ish grammars, groups of 3-9 alternatives behind one leading symbol (suffix symbols with more "
         "than 5 productions survive the smart undo), a well-formed non-left-recursive grammar must be accepted with both "
@@ -140,7 +141,13 @@ LEVEL_TEXT = ("Kernel-checked on the executable model, for ALL grammars and toke
               "non-sentence ends in ParsingError (C02.reject_raises); the computed FIRST/FOLLOW sets are the least sets "
               "(C02.sets_exact), the conflict report is exact (C02.conflict_report_exact) and a grammar that is LL(1) as written "
               "- every non-terminal having at least one alternative - is reported as not ambiguous (C02.ll1_as_written_unambiguous, "
-              "full strength). model = code by a differential run incl. nullables, FIRST, FOLLOW and table as diagnostics, call "
+              "full strength; all its hypotheses are met by a concrete grammar with a nullable symbol and a unit production, "
+              "C02.ll1_as_written_nonvacuous). The clause 'unique derivation tree / a single parse' is kernel-checked as: when "
+              "is_ambiguous() is False every table entry holds exactly one production (C02.table_deterministic), a token list has "
+              "at most one derivation tree of the USER's grammar rooted at the start symbol (C02.unique_derivation), and the tree "
+              "the backtracking loop returns is that tree (C02.parse_unique). NOT separately modelled: a predictive (non-"
+              "backtracking) parser - its result would have to be a derivation tree too, hence the same tree; uniqueness for "
+              "dictionaries with templates and for parse(text, start_symbol_name=X) is not stated. model = code by a differential run incl. nullables, FIRST, FOLLOW and table as diagnostics, call "
               "sequences on one parser object and is_ambiguous() before and after the parses.")
 LEVEL_NOTE = ("Trusted: Lean kernel (axioms propext, Classical.choice, Quot.sound), harness adapter/oracle (memoised CFG recogniser, "
               "independent FIRST/FOLLOW), sampled correspondence.")
